@@ -247,6 +247,12 @@ func checkC01(c C01Case, o *Obs) error {
 		if err := compareFasta([]*fasta.Fasta{fa}, c.Recs[i:i+1], seqs[i:i+1]); err != nil {
 			return fmt.Errorf("after the consumer modified the records it received earlier in the same pass: record %d: %v", i, err)
 		}
+		// appending to one field of a record (a "/1" behind the name) must not reach the other
+		seqBefore := bytes.Clone(fa.Sequence)
+		fa.Name = append(fa.Name, "/1"...)
+		if !bytes.Equal(fa.Sequence, seqBefore) {
+			return fmt.Errorf("record %d: appending to the Name of a record the reader yielded changed its Sequence from %s to %s (the fields share storage)", i, gen.Abbrev(seqBefore), gen.Abbrev(fa.Sequence))
+		}
 		for j := range fa.Name {
 			fa.Name[j] ^= 0x5a
 		}
